@@ -112,6 +112,27 @@ def _replay_key(key: str) -> dict:
     return {"verdict": "INCONCLUSIVE", "detail": f"solver witness {key!r} did not reproduce on redact_claims"}
 
 
+def _alternative_languages():
+    """z3 languages of the live pattern's top-level alternatives under ``search``.
+
+    L_search(A1|...|An) = L_search(A1) ∪ ... ∪ L_search(An): a string contains a match of the
+    alternation iff it contains a match of one alternative.  Deciding an inclusion against one
+    alternative at a time keeps every query small (the 19-way union is beyond z3's budget).
+    """
+    import re._constants as _c
+    import re._parser as _p
+
+    from engine import rx
+
+    tree = _p.parse(_LIVE_RE.pattern, _LIVE_RE.flags)
+    flags = tree.state.flags | _LIVE_RE.flags
+    if flags & re.MULTILINE:
+        raise rx.Unsupported("MULTILINE")
+    data = list(tree.data)
+    alts = data[0][1][1] if len(data) == 1 and data[0][0] is _c.BRANCH else [data]
+    return [rx._seq(list(a), flags, "search", True) for a in alts]
+
+
 @task(q=60, t=180, encoded=[lu.redact_claims], bound="all strings (regular-language inclusion), 19 names", engine="rx")
 def regex_covers_sensitive_names(budget: float, replay=None) -> dict:
     import z3
@@ -121,9 +142,11 @@ def regex_covers_sensitive_names(budget: float, replay=None) -> dict:
     if replay is not None:
         return _replay_key(replay["key"])
     try:
+        langs = _alternative_languages()
         impl = rx.lang(_LIVE_RE, "search")
     except rx.Unsupported as e:
         return {"verdict": "INCONCLUSIVE", "detail": f"regex construct outside the translator: {e}", "queries": 0, "discharged": 0}
+    union = z3.Union(*langs) if len(langs) > 1 else langs[0]
     q = rx.Query(timeout_s=min(20.0, budget / 4))
 
     def ci(word: str):
@@ -135,20 +158,44 @@ def regex_covers_sensitive_names(budget: float, replay=None) -> dict:
 
     corpus = (
         _tests_corpus()
-        + q.members(impl, 30, "members(impl)")
-        + ["name", "Name", "name\n", "username", "xnamex", "", "sub", "iss", "KEY", "monkey", "E-Mail", "e_mail", "tokens", "ſecret", "Key"]
+        + ["name", "Name", "name\n", "username", "xnamex", "", "sub", "iss", "KEY", "monkey", "E-Mail", "e_mail", "tokens", "ſecret", "\u212aey", "Key"]
         + [w.upper() for w in ALL_NAMES]
         + ["x" + w + "y" for w in ALL_NAMES]
+        + [w[:-1] for w in ALL_NAMES]
     )
-    val = rx.validate_translation(_LIVE_RE, "search", impl, corpus)
-    if val["n_disagree"]:
-        return {"verdict": "ERROR", "detail": f"sre->z3 translator disagrees with the live engine: {val['disagreements']}"}
+    # both encodings (whole pattern, union of alternatives) against the live engine
+    for enc in (impl, union):
+        val = rx.validate_translation(_LIVE_RE, "search", enc, corpus)
+        if val["n_disagree"]:
+            return {"verdict": "ERROR", "detail": f"sre->z3 translator disagrees with the live engine: {val['disagreements']}"}
     res: dict = {"translator_validation": val}
     unknown = []
+    covered_by: dict = {}
     for name in ALL_NAMES:
-        spec = ci(name) if name in EXACT_NAMES else z3.Concat(rx.SIGMA_STAR, ci(name), rx.SIGMA_STAR)
-        label = ("ci(%s)" if name in EXACT_NAMES else "Σ* ci(%s) Σ*") % name + " ⊆ L_search(_DEFAULT_CLAIM_REDACT_RE)"
-        r, wit = q.member_of_difference(spec, impl, label)
+        exact = name in EXACT_NAMES
+        spec = ci(name) if exact else z3.Concat(rx.SIGMA_STAR, ci(name), rx.SIGMA_STAR)
+        label = ("ci(%s)" if exact else "Σ* ci(%s) Σ*") % name
+        done = False
+        for j, lang_j in enumerate(langs):
+            r, _w = q.member_of_difference(spec, lang_j, f"{label} ⊆ L_search(alternative #{j})")
+            if r == "unsat":
+                covered_by[name] = j
+                done = True
+                break
+            q.log.pop()  # keep only the deciding queries in the evidence
+        if done:
+            continue
+        # not covered by a single alternative: look for a witness, cheapest shape first
+        # (the bare name, the name in a small context, any string), against the whole pattern
+        small = z3.Star(z3.Union(z3.Re("x"), z3.Re("_")))
+        shapes = [(ci(name), f"ci({name})")]
+        if not exact:
+            shapes += [(z3.Concat(small, ci(name), small), f"[x_]* ci({name}) [x_]*"), (spec, label)]
+        r, wit = "unsat", None
+        for shape, shape_label in shapes:
+            r, wit = q.member_of_difference(shape, union, f"{shape_label} ⊆ L_search(_DEFAULT_CLAIM_REDACT_RE)")
+            if r != "unsat":
+                break
         if r == "sat":
             res.update(queries=q.queries, discharged=q.discharged, solver_s=round(q.solver_s, 3), samples=q.log[-4:])
             res.update(_replay_key(wit))
@@ -156,7 +203,7 @@ def regex_covers_sensitive_names(budget: float, replay=None) -> dict:
             return res
         if r != "unsat":
             unknown.append(name)
-    res.update(queries=q.queries, discharged=q.discharged, solver_s=round(q.solver_s, 3), samples=q.log, distinct=q.discharged)
+    res.update(queries=q.queries, discharged=q.discharged, solver_s=round(q.solver_s, 3), samples=q.log, distinct=len(covered_by), covered_by_alternative=covered_by)
     if unknown:
         res.update(verdict="INCONCLUSIVE", detail=f"solver returned unknown for {unknown}")
     else:
@@ -283,7 +330,7 @@ def _check_words(v: int, position: int) -> bool:
 
 def _claims_from_args(args: dict) -> tuple[object, list]:
     if "v" in args:
-        claims, _ = _place(args["position"], _VARIANTS[args["v"]])
+        claims, _ = _place(args.get("position", 0), _VARIANTS[args["v"]])
         return claims, [_SECRET]
     tree, hidden, _path, _key = _build_tree(
         args["depth"], args["k2"], args["k3"], args["p1"], args["p2"], args["p3"], args["sens_level"], args["on_sibling"], args["sk"]
@@ -477,22 +524,27 @@ def tree_redaction_any_keys(depth: int, k2: int, k3: int, p1: bool, p2: bool, p3
 # ---------------------------------------------------------------------------
 
 _EXC_TYPES = [ValueError, KeyError, RuntimeError, TypeError, AttributeError, RecursionError, Exception]
+_CLAIMS_BY_SIZE = [{}, {"email": _SECRET}, {"email": _SECRET, "sub": _OTHER}]
 
 
 @cond(q=30, t=60, stubs=_STUBS_LOGGER, encoded=[lu.apply_claim_redaction, lu.set_claim_redactor, srv._emit_access_log],
-      bound="redactor raising any of 7 Exception types, before or after copying the claims; claims with 0..2 entries")
-def failing_redactor_drops_claims(kind: int, partial: bool, n_claims: int) -> bool:
+      bound="redactor raising any of 7 Exception types, before or after reading the claims; claims with 0..2 entries")
+def failing_redactor_drops_claims(kind: int, reads_first: bool, n_claims: int) -> bool:
     """
     pre: 0 <= kind < 7 and 0 <= n_claims <= 2
     post: _
     """
-    claims = {"email": _SECRET, "sub": _OTHER} if n_claims == 2 else ({"email": _SECRET} if n_claims == 1 else {})
-    leaked: list = []
+    claims = _CLAIMS_BY_SIZE[n_claims]
+    seen: list = []
 
     def boom(c: Mapping) -> dict:
-        if partial:
-            leaked.append(dict(c))
-        raise _EXC_TYPES[kind]("redactor failed")
+        if reads_first:
+            for k in c:
+                seen.append(c[k])
+        for i, exc_type in enumerate(_EXC_TYPES):  # concrete class per path (a symbolic index would make the class symbolic)
+            if i == kind:
+                raise exc_type("redactor failed")
+        raise Exception("redactor failed")
 
     saved = lu._claim_redactor
     lu.set_claim_redactor(boom)
@@ -503,7 +555,7 @@ def failing_redactor_drops_claims(kind: int, partial: bool, n_claims: int) -> bo
         return False  # "a redactor that raises must not take the request down with it"
     finally:
         lu.set_claim_redactor(saved)
-    if direct != {}:
+    if len(direct) != 0:
         return False
     # exactly one record is still written, and it carries no claims at all
     return n == 1 and out is None
